@@ -24,7 +24,7 @@ RULE = ("case = one generated project + history (dev edits: delete top-ID statem
         "additionally a sweep of every (k, action) of one edit run of the history, each followed by the adversarial suffix. "
         "An evaluation is one simulated process; non-trivial = history in which an abnormal ending actually fired; distinct = "
         "(case, step, k, action).")
-PROBES = ["two_signals_in_history", "top_of_id_range", "highest_id_deleted_then_run", "abnormal_then_clean_run", "kill_in_history", "signal_in_history", "ioerr_in_history",
+PROBES = ["stdout_closed_in_history", "two_signals_in_history", "top_of_id_range", "highest_id_deleted_then_run", "abnormal_then_clean_run", "kill_in_history", "signal_in_history", "ioerr_in_history",
           "lock_write_failed", "fresh_project_no_lock", "moved_statement", "check_run_in_history"]
 ASSUMPTIONS = ["lock file in use (use_cache true or omitted) and never removed by the developer",
                "initial lock absent or ahead of every planted ID"]
@@ -94,6 +94,10 @@ def choose_fault(rng, ops, phm):
         wr = [o.k for o in ops if o.kind in ("WRITE", "OPEN_W")]
         if wr:
             return [{"from": rng.choice(wr), "kinds": ["WRITE", "OPEN_W"], "act": "fail", "errno": "ENOSPC"}], "class:disk-full"
+    if 0.4 <= r < 0.47:
+        # the reader of the output goes away (breadlog | head): from the n-th line on every write to stdout fails and the
+        # process dies on its next log line - one more way of "being killed"
+        return [], "stdout-closed:%d" % rng.randrange(1, 14)
     if 0.22 <= r < 0.4:
         nren = max(1, sum(1 for o in ops if o.kind == "RENAME" and o.cls() == "scratch"))
         kind = rng.choice(["RENAME", "RENAME", "WRITE", "OPEN_W"])
@@ -192,6 +196,9 @@ def execute(wm0, knobs, steps, seed, ctx, rng=None):
                 else:
                     faults, ph = choose_fault(rng, tres.ops, phm)
                     plan = {"seed": run_seed, "perm": True, "faults": faults}
+                    if ph.startswith("stdout-closed:"):
+                        plan["stdout_fail"] = int(ph.split(":")[1])
+                        ph = "stdout"
                     st["site"] = ph
                 st["plan"] = plan
             full_plan = plan or base_plan(run_seed)
@@ -212,10 +219,10 @@ def execute(wm0, knobs, steps, seed, ctx, rng=None):
                     del wm["files"][p]
             for p in info["missing"]:
                 wm["files"].pop(p, None)
-            abnormal = bool(plan and plan.get("faults"))
-            fired = bool(res.fired_counts() or res.signals)
-            f0 = plan["faults"][0] if abnormal else None
-            fcls = scen.fault_class(f0) if f0 else "none"
+            abnormal = bool(plan and (plan.get("faults") or plan.get("stdout_fail")))
+            fired = bool(res.fired_counts() or res.signals or res.stdout_failed)
+            f0 = plan["faults"][0] if (abnormal and plan.get("faults")) else None
+            fcls = scen.fault_class(f0) if f0 else ("stdout-closed" if abnormal else "none")
             if abnormal and len(plan["faults"]) > 1:
                 fcls = "+".join(scen.fault_class(f) for f in plan["faults"])
                 ctx.probes["two_signals_in_history"] += 1
@@ -234,7 +241,9 @@ def execute(wm0, knobs, steps, seed, ctx, rng=None):
                     ctx.probes["ioerr_in_history"] += 1
                 if site == "lock-write":
                     ctx.probes["lock_write_failed"] += 1
-                ctx.sites.add("%s/%s" % (site, f0["act"]))
+                ctx.sites.add("%s/%s" % (site, f0["act"] if f0 else "stdout"))
+                if not f0:
+                    ctx.probes["stdout_closed_in_history"] += 1
             elif not check and last_abn != "none":
                 ctx.probes["abnormal_then_clean_run"] += 1
             if check:
